@@ -315,6 +315,9 @@ pub struct Case {
     /// in order of appearance; the scenario carries their printed CSS
     #[serde(default, skip_serializing_if = "Vec::is_empty")]
     pub sels: Vec<crate::refmodel::select::SelList>,
+    /// C18: the other rewriter instances of a multi-instance simulation
+    #[serde(default, skip_serializing_if = "Vec::is_empty")]
+    pub multi: Vec<Scenario>,
     /// free-form mode selector of the property's check (e.g. "sweep1", "prefix")
     #[serde(default, skip_serializing_if = "String::is_empty")]
     pub mode: String,
@@ -322,7 +325,7 @@ pub struct Case {
 
 impl Case {
     pub fn of(sc: Scenario) -> Self {
-        Case { sc, extra_handlers: vec![], alt_max_mem: None, sels: vec![], mode: String::new() }
+        Case { sc, extra_handlers: vec![], alt_max_mem: None, sels: vec![], multi: vec![], mode: String::new() }
     }
 }
 
